@@ -51,6 +51,7 @@ def rabbit : Handler := fun st cmd args =>
   | "rabbit.ack", [i] => do let s := ack st.rabbit (← toStr? i); pure ({ st with rabbit := s }, sTo s)
   | "rabbit.nack", [i] => do let s := nack st.rabbit (← toStr? i); pure ({ st with rabbit := s }, sTo s)
   | "rabbit.reject", [i] => do let s := reject st.rabbit (← toStr? i); pure ({ st with rabbit := s }, sTo s)
+  | "rabbit.finish", [c, now] => do let s := finish st.rabbit (← toNat? c) (← toInt? now); pure ({ st with rabbit := s }, sTo s)
   | "rabbit.millisOk", [d, ms] => do pure (st, ofBool (millisOk (← toInt? d) (← toInt? ms)))
   | _, _ => none
 
